@@ -9,6 +9,9 @@ prop(
         dict(run="^TestPropExcluded$",
              quick=dict(checks=24000, shards=16, timeout=900),
              thorough=dict(checks=320000, shards=16, timeout=7200)),
+        dict(run="^TestPropExcludedInScalar$",
+             quick=dict(checks=8000, shards=8, timeout=900),
+             thorough=dict(checks=120000, shards=16, timeout=7200)),
         dict(run="^$", fuzz="FuzzMask", thorough=dict(fuzztime="420s", timeout=1200)),
     ],
     rule="generated rule files x insertion point (top / between rules / between groups / bottom) x exclusion form (ignore/line, ignore/next-line, "
@@ -16,7 +19,9 @@ prop(
          "rule-like text, YAML documents, anchors, and every kind of pint control comment incl. invalid ones and other ignore/* comments); each case "
          "is a pair of equally long files that differ only inside the excluded text (payload A vs payload B, or block vs blank lines); oracle: identical "
          "entries (rules with positions, parse errors, owners, file-level disabled checks, modified lines) and identical problems from the default "
-         "offline checks, strict or relaxed. Non-trivial: payload is not blank / a plain comment and the file has rules.",
+         "offline checks, strict or relaxed. A second generator places the excluded block between the lines of a multi-line scalar value "
+         "(literal expr, folded annotation, double-quoted expr) with two payloads padded to the same byte length (replacement relation only), "
+         "half of them spelling text of the neighbouring value lines. Non-trivial: payload is not blank / a plain comment and the file has rules.",
     level_text="Generated-input search (rapid, fixed seeds) with a metamorphic oracle: what is excluded must not be observable. "
                "Held on N generated file pairs.",
     level_note="Base documents use plain/quoted/flow styles only (whitespace that directly follows a block scalar is content of that scalar by YAML's rules). "
